@@ -16,6 +16,13 @@ SOURCES = ["mls-rs/src/group/framing.rs", "mls-rs/src/group/message_signature.rs
            "mls-rs/src/tree_kem/kem.rs", "mls-rs/src/tree_kem/parent_hash.rs", "mls-rs/src/signer.rs"]
 
 
+def keyer(line):
+    # known finding F38: keys of an update path are not checked for uniqueness against the tree (RFC 9420 12.4.2)
+    if "insider-path-leaf-key0-consistent passed every structural check" in line or "insider-path-leaf-key1-consistent passed every structural check" in line:
+        return "F38"
+    return None
+
+
 def run(ctx):
     return generic.standard(
         ctx, ["MlsVerif.Props.C03"], ["c03"], "small", "c03", SOURCES,
@@ -30,7 +37,7 @@ def run(ctx):
         assumptions=["signature, MAC and AEAD are free symbols (injective, unforgeable without the key) in the theorems; the real primitives are exercised only by the oracle",
                      "field lists are extracted from the Rust struct definitions and signable_content implementations by tools/translate.py (trusted extractor, ~120 lines)",
                      "insider edits are limited to the InsiderEdit variants of the verif hook (update-path structure, leaf key, confirmation tag) on public-message commits"],
-        nontrivial=lambda r, kv: int(kv.get("rejected", "0")))
+        nontrivial=lambda r, kv: int(kv.get("rejected", "0")), oracle_keyer=keyer)
 
 
 def replay(ctx, path):
